@@ -2,7 +2,7 @@
    Table theorems over coq/Gen (regenerated from /repo on every run). *)
 From Coq Require Import String List Bool.
 From T38 Require Import Model.Tables Gen.LockTable Gen.Dispatch Gen.ScriptTables Gen.Mutators Gen.LuaAllow
-  Model.Gate Proofs.GateProofs Proofs.SandboxProofs.
+  Model.Gate Model.Sandbox Proofs.GateProofs Proofs.SandboxProofs.
 Import ListNotations.
 Open Scope string_scope.
 
